@@ -61,16 +61,16 @@ theorem pcrLoop_spec (S : Sys V α) (hl : LawfulLin S) (c : Config α) (b : V) :
             rw [hf.2.1] at this
             exact this
 
-theorem pcrIntern_spec (S : Sys V α) (hl : LawfulLin S) (c : Config α) (b x r : V) (res : Result V α)
-    (hr : r = resid S b x) (h : pcrIntern S c x r = some res) :
+theorem pcrIntern_spec (S : Sys V α) (hl : LawfulLin S) (c : Config α) (prev : State α) (b x r : V) (res : Result V α)
+    (hr : r = resid S b x) (h : pcrIntern S c prev x r = some res) :
     res.st.defInit = S.nrm r ∧ res.status ≠ .undefined ∧ res.status ≠ .progress ∧
       ((res.st.numIter = 0 ∧ res.x = x ∧ res.st.defCur = S.nrm r ∧
           (res.status = .aborted ∨ (res.status = .success ∧ (S.nrm r < c.tolAbsLow ∨ S.nrm r ≤ c.eps2)))) ∨
         (res.status ≠ .aborted → 0 < res.st.numIter ∧ FinalStep S c b res)) := by
   simp only [pcrIntern] at h
-  rcases hsi : setInitialDefect c true (S.nrm r) with ⟨status, st⟩
+  rcases hsi : setInitialDefect c prev true (S.nrm r) with ⟨status, st⟩
   rw [hsi] at h
-  obtain ⟨hst, _, hsu, hpr, hall⟩ := setInitial_spec c true _ _ _ hsi
+  obtain ⟨hst, _, hsu, hpr, hall⟩ := setInitial_spec c prev true _ _ _ hsi
   simp only at h
   split at h
   · rename_i hne
@@ -98,7 +98,8 @@ theorem pcrIntern_spec (S : Sys V α) (hl : LawfulLin S) (c : Config α) (b x r 
     the returned iterate and meets (`success`) / exceeds (`diverged`) the configured limits -/
 def HalfExit (S : Sys V α) (c : Config α) (b : V) (res : Result V α) : Prop :=
   res.st.defCur = S.nrm (resid S b res.x) ∧
-    ((res.status = .success ∧ Converged c res.st.defInit res.st.defCur ∧ ¬ Diverged c res.st.defInit res.st.defCur) ∨
+    ((res.status = .success ∧ Converged c res.st.defInit res.st.defCur ∧ ¬ Diverged c res.st.defInit res.st.defCur ∧
+        c.minIter ≤ res.st.numIter) ∨
      (res.status = .diverged ∧ Diverged c res.st.defInit res.st.defCur))
 
 theorem bicgLoop_spec (S : Sys V α) (hl : Lawful S) (c : Config α) (b rh0 : V) :
@@ -138,7 +139,9 @@ theorem bicgLoop_spec (S : Sys V α) (hl : Lawful S) (c : Config α) (b rh0 : V)
             simp only [Option.some.injEq] at h
             subst h
             refine ⟨rfl, by simp, by simp, fun _ => ⟨by simp only; omega, Or.inl ⟨by simp only; rw [hr1], ?_⟩⟩⟩
-            exact Or.inl ⟨rfl, (isConverged_iff c _ _).1 hconv, fun hd => hdiv ((isDiverged_iff c _ _).2 hd)⟩
+            simp only [Bool.and_eq_true, decide_eq_true_eq] at hconv
+            exact Or.inl ⟨rfl, (isConverged_iff c _ _).1 hconv.2, fun hd => hdiv ((isDiverged_iff c _ _).2 hd),
+              hconv.1⟩
           · split at h
             · simp only [Option.some.injEq] at h
               subst h
@@ -184,9 +187,9 @@ theorem bicgIntern_spec (S : Sys V α) (hl : Lawful S) (c : Config α) (st0 : St
   · simp only [Option.some.injEq] at h
     subst h
     exact ⟨by simp, by simp, by simp⟩
-  · rcases hsi : setInitialDefect c true (S.nrm r) with ⟨status, st⟩
+  · rcases hsi : setInitialDefect c st0 true (S.nrm r) with ⟨status, st⟩
     rw [hsi] at h
-    obtain ⟨hst, _, hsu, hpr, hall⟩ := setInitial_spec c true _ _ _ hsi
+    obtain ⟨hst, _, hsu, hpr, hall⟩ := setInitial_spec c st0 true _ _ _ hsi
     simp only at h
     split at h
     · rename_i hne
@@ -249,16 +252,16 @@ theorem pmrLoop_spec (S : Sys V α) (hl : Lawful S) (c : Config α) (b : V) :
           rw [hf.2.1] at this
           exact this
 
-theorem pmrIntern_spec (S : Sys V α) (hl : Lawful S) (c : Config α) (b x r : V) (res : Result V α)
-    (hr : r = resid S b x) (h : pmrIntern S c x r = some res) :
+theorem pmrIntern_spec (S : Sys V α) (hl : Lawful S) (c : Config α) (prev : State α) (b x r : V) (res : Result V α)
+    (hr : r = resid S b x) (h : pmrIntern S c prev x r = some res) :
     res.st.defInit = S.nrm r ∧ res.status ≠ .undefined ∧ res.status ≠ .progress ∧
       ((res.st.numIter = 0 ∧ res.x = x ∧ res.st.defCur = S.nrm r ∧
           (res.status = .aborted ∨ (res.status = .success ∧ (S.nrm r < c.tolAbsLow ∨ S.nrm r ≤ c.eps2)))) ∨
         (res.status ≠ .aborted → 0 < res.st.numIter ∧ FinalStep S c b res)) := by
   simp only [pmrIntern] at h
-  rcases hsi : setInitialDefect c true (S.nrm r) with ⟨status, st⟩
+  rcases hsi : setInitialDefect c prev true (S.nrm r) with ⟨status, st⟩
   rw [hsi] at h
-  obtain ⟨hst, _, hsu, hpr, hall⟩ := setInitial_spec c true _ _ _ hsi
+  obtain ⟨hst, _, hsu, hpr, hall⟩ := setInitial_spec c prev true _ _ _ hsi
   simp only at h
   split at h
   · rename_i hne
@@ -280,5 +283,93 @@ theorem pmrIntern_spec (S : Sys V α) (hl : Lawful S) (c : Config α) (b x r : V
     · have := pmrLoop_spec S hl c b _ x r _ st _ _ res hr (by subst hst; simp) (by subst hst; simp [fuelOf]) h
       subst hst
       exact ⟨this.1, this.2.1, this.2.2.1, Or.inr this.2.2.2⟩
+
+theorem pcgnrLoop_spec (S : Sys V α) (hl : Lawful S) (c : Config α) (b : V) :
+    ∀ (fuel : Nat) (x r p q : V) (gamma : α) (st : State α) (calls : Nat) (hist : List α) (res : Result V α),
+      r = resid S b x →
+      st.numIter ≤ max c.minIter c.maxIter → max c.minIter c.maxIter + 1 ≤ fuel + st.numIter →
+      pcgnrLoop S c fuel x r p q gamma st calls hist = some res →
+      res.st.defInit = st.defInit ∧ res.status ≠ .undefined ∧ res.status ≠ .progress ∧
+        (res.status ≠ .aborted → 0 < res.st.numIter ∧ FinalStep S c b res) := by
+  intro fuel
+  induction fuel with
+  | zero => intro x r p q gamma st calls hist res _ h1 h2; omega
+  | succ fuel ih =>
+    intro x r p q gamma st calls hist res hr h1 h2 h
+    simp only [pcgnrLoop] at h
+    split at h
+    · simp only [Option.some.injEq] at h
+      subst h
+      exact ⟨rfl, by simp, by simp, by simp⟩
+    · rename_i z _
+      split at h
+      · exact absurd h (by simp)
+      · generalize hal : gamma / S.ops.dot (S.Fd (S.A q)) z = al at h
+        have hr' : S.ops.axpy r (S.Fd (S.A q)) (-al) = resid S b (S.ops.axpy x q al) := by
+          rw [hl.resid_step, hr]
+        generalize hx' : S.ops.axpy x q al = x' at h hr'
+        generalize hr2 : S.ops.axpy r (S.Fd (S.A q)) (-al) = r' at h hr'
+        generalize hsn : setNewDefect c st true (S.nrm r') = sn at h
+        obtain ⟨status, st'⟩ := sn
+        have hf := setNew_frame c st st' true _ _ hsn
+        simp only at h
+        split at h
+        · rename_i hne
+          simp only [Option.some.injEq] at h
+          subst h
+          refine ⟨hf.2.1, setNew_ne_undefined c _ _ _ _ _ hsn, by simpa using hne, ?_⟩
+          intro _
+          exact ⟨by simp only; omega, st, by simp only; rw [← hr']; exact hsn⟩
+        · rename_i hne
+          have hp : status = .progress := by simpa using hne
+          subst hp
+          have hb := setNew_progress_bound c st st' true _ hsn
+          split at h
+          · simp only [Option.some.injEq] at h
+            subst h
+            exact ⟨hf.2.1, by simp, by simp, by simp⟩
+          · split at h
+            · exact absurd h (by simp)
+            · have := ih x' r' _ _ _ st' _ _ res hr' (by omega) (by omega) h
+              rw [hf.2.1] at this
+              exact this
+
+theorem pcgnrIntern_spec (S : Sys V α) (hl : Lawful S) (c : Config α) (prev : State α) (b x r : V)
+    (res : Result V α) (hr : r = resid S b x) (h : pcgnrIntern S c prev x r = some res) :
+    res.st.defInit = S.nrm r ∧ res.status ≠ .undefined ∧ res.status ≠ .progress ∧
+      ((res.st.numIter = 0 ∧ res.x = x ∧ res.st.defCur = S.nrm r ∧
+          (res.status = .aborted ∨ (res.status = .success ∧ (S.nrm r < c.tolAbsLow ∨ S.nrm r ≤ c.eps2)))) ∨
+        (res.status ≠ .aborted → 0 < res.st.numIter ∧ FinalStep S c b res)) := by
+  simp only [pcgnrIntern] at h
+  rcases hsi : setInitialDefect c prev true (S.nrm r) with ⟨status, st⟩
+  rw [hsi] at h
+  obtain ⟨hst, _, hsu, hpr, hall⟩ := setInitial_spec c prev true _ _ _ hsi
+  simp only at h
+  split at h
+  · rename_i hne
+    simp only [Option.some.injEq] at h
+    subst h
+    subst hst
+    have hne' : status ≠ .progress := by simpa using hne
+    refine ⟨rfl, ?_, hne', Or.inl ⟨rfl, rfl, rfl, ?_⟩⟩
+    · rcases hall with e | e | e <;> simp_all
+    · rcases hall with e | e | e
+      · exact Or.inl e
+      · exact Or.inr ⟨e, (hsu.1 e).2⟩
+      · exact absurd e hne'
+  · split at h
+    · simp only [Option.some.injEq] at h
+      subst h
+      subst hst
+      exact ⟨rfl, by simp, by simp, Or.inl ⟨rfl, rfl, rfl, Or.inl rfl⟩⟩
+    · split at h
+      · simp only [Option.some.injEq] at h
+        subst h
+        subst hst
+        exact ⟨rfl, by simp, by simp, Or.inl ⟨rfl, rfl, rfl, Or.inl rfl⟩⟩
+      · have := pcgnrLoop_spec S hl c b _ x r _ _ _ st _ _ res hr (by subst hst; simp)
+          (by subst hst; simp [fuelOf]) h
+        subst hst
+        exact ⟨this.1, this.2.1, this.2.2.1, Or.inr this.2.2.2⟩
 
 end FeatModel.Solver
